@@ -233,23 +233,8 @@ theorem txid_collision_extraction (hash256 : Bytes → Bytes) (t₁ t₂ : Tx) (
 /-- Whatever text the server returns: if `fetch` returns a transaction at all, that transaction's
     id is the requested one. -/
 theorem fetch_sound (hash256 : Bytes → Bytes) (network txId response : String) (t : Tx)
-    (h : fetch hash256 network txId response = some t) : t.id hash256 = some txId := by
-  unfold fetch at h
-  split at h
-  · cases h
-  · split at h
-    · cases h
-    · split at h
-      · cases h
-      · split at h
-        · cases h
-        · next tx _ _ computed hc =>
-          split at h
-          · cases h
-          · next hne =>
-            cases h
-            simp only [ne_eq, Decidable.not_not] at hne
-            rw [hc, hne]
+    (h : fetch hash256 network txId response = some t) : t.id hash256 = some txId :=
+  fetch_id h
 
 /-- a non-hex response, an unknown network and a response that does not parse are refused -/
 theorem fetch_refuses (hash256 : Bytes → Bytes) (network txId response : String)
@@ -261,5 +246,35 @@ theorem fetch_refuses (hash256 : Bytes → Bytes) (network txId response : Strin
   · split
     · rfl
     · rw [h]
+
+
+/-! ## fetcher histories on the shared class-level cache -/
+
+/-- the invariant of `TxFetcher.cache`: every cached transaction hashes to the id it is stored under.
+    It holds for the empty cache and is preserved by every call, whatever the server answers. -/
+theorem fetch_cache_invariant (hash256 : Bytes → Bytes) (c : FetchCache) (ok : CacheOK hash256 c) (calls : List FetchCall) :
+    CacheOK hash256 [] ∧ CacheOK hash256 (fetchRun hash256 c calls).2 :=
+  ⟨cacheOK_nil hash256, (fetchRun_sound calls ok).1⟩
+
+/-- For every history of `fetch` calls on one cache — any ids (repeated or not), `fresh` or not, any
+    networks, and any sequence of server responses (honest, lying, non-hex, with trailing bytes) —
+    starting from the empty cache: whatever any call returns hashes to the id that call requested.
+    In particular a response refused once is never served from the cache later. -/
+theorem fetch_history_sound (hash256 : Bytes → Bytes) (calls : List FetchCall) (n : Nat) (call : FetchCall) (t : Tx)
+    (hc : calls[n]? = some call) (ha : (fetchRun hash256 [] calls).1[n]? = some (some t)) :
+    t.id hash256 = some call.txId :=
+  (fetchRun_sound calls (cacheOK_nil hash256)).2 n call t hc ha
+
+/-- the cache is written only after the id check: a call that raises leaves the cache as it was -/
+theorem fetch_failure_leaves_cache (hash256 : Bytes → Bytes) (c : FetchCache) (call : FetchCall)
+    (h : (fetchStep hash256 c call).1 = none) : (fetchStep hash256 c call).2 = c := by
+  unfold fetchStep at h ⊢
+  split
+  · next hc =>
+    rw [if_pos hc] at h
+    cases hf : fetch hash256 call.network call.txId call.response with
+    | none => rfl
+    | some tx => rw [hf] at h; cases h
+  · rfl
 
 end Buidl.Props.C04
